@@ -185,8 +185,12 @@ End Purity.
    Positions of a 3-D array are flattened row-major (entry [i][j] of n0 x n1 is position i*n1 + j).
    Every model is constructed with the group's settings — the same dictionary OBJECTS, so an item
    assignment on the group's thresholds / burst options is seen by every model — and loaded with its
-   table and its signal.  recompute_edges(r) recomputes every model and, as repaired, writes the
-   model's new table back into the group's df_features; the Legacy step leaves df_features alone. *)
+   table and its signal.  An ASSIGNMENT to a settings attribute of the group (bg.thresholds = {...},
+   bg.center_extrema = ...) replaces the group's value only: fit reads the attributes when it is called,
+   so the next fit runs with the assigned values and builds models that hold them; the models of the
+   previous fit keep what they were built with.  recompute_edges(r) recomputes every model (with the
+   model's thresholds) and, as repaired, writes the model's new table back into the group's
+   df_features; the Legacy step leaves df_features alone. *)
 Inductive gshape :=
 | G2Rows (n : nat)              (* 2-D, axis=0: one table per row *)
 | G2Flat (n : nat)              (* 2-D, axis=None: rows = epochs of the flattened signal *)
@@ -206,22 +210,43 @@ Definition table_at (s : settings) (arr : Z) (sh : gshape) (p : nat) : table :=
   | G3Ax1 _ n1 => TEpoch s (plane_id arr 1 (p mod n1)) (p / n1)
   end.
 
-Record group := { g_set : settings; g_sigs : list Z; g_dfs : list table; g_models : list obj }.
+(* g_shthr / g_shbk: the models' thresholds / burst options are the SAME dictionary objects as the group's
+   (true after a fit, false once the user has assigned a new dictionary to the group's attribute) *)
+Record group := { g_set : settings; g_sigs : list Z; g_dfs : list table; g_models : list obj;
+                  g_shthr : bool; g_shbk : bool }.
 Inductive gop :=
 | GFit (arr : Z) (sh : gshape)
 | GEditThr (k : string) (v : Z)          (* bg.thresholds[k] = v : shared with every model *)
 | GEditBk (k : string) (v : Z)
-| GRecompute (r : Z).
+| GRecompute (r : Z)
+(* attribute assignment on the group (bg.thresholds = {...}, bg.center_extrema = ..., ...): the GROUP's
+   setting is replaced; the models built by the last fit keep the objects / values they were built with
+   until the next fit builds new ones *)
+| GSetThr (d : dict)
+| GSetBk (d : dict)
+| GSetCenter (c : bool)
+| GSetMethod (a : bool)
+| GSetFek (f : Z)
+| GSetRs (b : bool).
 
 Definition construct_group (a : cargs) : group :=
-  {| g_set := o_set (construct_args a); g_sigs := []; g_dfs := []; g_models := [] |}.
+  {| g_set := o_set (construct_args a); g_sigs := []; g_dfs := []; g_models := []; g_shthr := true; g_shbk := true |}.
 Definition load_model (s : settings) (sig : Z) (t : table) : obj := {| o_set := s; o_sig := Some sig; o_df := Some t |}.
 Definition set_settings (s : settings) (o : obj) : obj := {| o_set := s; o_sig := o_sig o; o_df := o_df o |}.
+(* an item assignment on a dictionary the models share is seen through every model *)
+Definition edit_model_thr (k : string) (v : Z) (o : obj) : obj :=
+  set_settings (with_thr (o_set o) (set (st_thr (o_set o)) k v)) o.
+Definition edit_model_bk (k : string) (v : Z) (o : obj) : obj :=
+  set_settings (with_bk (o_set o) (set (st_bk (o_set o)) k v)) o.
 
 Fixpoint mapM {A B} (f : A -> result B) (l : list A) : result (list B) :=
   match l with [] => Ok [] | a :: t => do b <- f a; do bs <- mapM f t; Ok (b :: bs) end.
 Definition some_tables (l : list obj) : list table :=
   flat_map (fun o => match o_df o with Some t => [t] | None => [] end) l.
+
+(* a group whose settings were replaced by s (tables, models and sharing flags given) *)
+Definition group_with (g : group) (s : settings) (shthr shbk : bool) : group :=
+  {| g_set := s; g_sigs := g_sigs g; g_dfs := g_dfs g; g_models := g_models g; g_shthr := shthr; g_shbk := shbk |}.
 
 Definition gstep_gen (writeback : bool) (g : group) (p : gop) : result group :=
   match p with
@@ -230,20 +255,32 @@ Definition gstep_gen (writeback : bool) (g : group) (p : gop) : result group :=
     let sigs := map (cell_id arr) pos in
     let dfs := map (table_at (g_set g) arr sh) pos in
     Ok {| g_set := g_set g; g_sigs := sigs; g_dfs := dfs;
-          g_models := map (fun p => load_model (g_set g) (cell_id arr p) (table_at (g_set g) arr sh p)) pos |}
+          g_models := map (fun p => load_model (g_set g) (cell_id arr p) (table_at (g_set g) arr sh p)) pos;
+          g_shthr := true; g_shbk := true |}
   | GEditThr k v =>
     let s := with_thr (g_set g) (set (st_thr (g_set g)) k v) in
-    Ok {| g_set := s; g_sigs := g_sigs g; g_dfs := g_dfs g; g_models := map (set_settings s) (g_models g) |}
+    Ok {| g_set := s; g_sigs := g_sigs g; g_dfs := g_dfs g;
+          g_models := if g_shthr g then map (edit_model_thr k v) (g_models g) else g_models g;
+          g_shthr := g_shthr g; g_shbk := g_shbk g |}
   | GEditBk k v =>
     let s := with_bk (g_set g) (set (st_bk (g_set g)) k v) in
-    Ok {| g_set := s; g_sigs := g_sigs g; g_dfs := g_dfs g; g_models := map (set_settings s) (g_models g) |}
+    Ok {| g_set := s; g_sigs := g_sigs g; g_dfs := g_dfs g;
+          g_models := if g_shbk g then map (edit_model_bk k v) (g_models g) else g_models g;
+          g_shthr := g_shthr g; g_shbk := g_shbk g |}
   | GRecompute r =>
     match g_models g with
     | [] => Err EOther                         (* never fitted: the object has no `sigs` attribute yet *)
     | _ => do ms <- mapM (fun m => step m (ORecompute r)) (g_models g);
            Ok {| g_set := g_set g; g_sigs := g_sigs g;
-                 g_dfs := if writeback then some_tables ms else g_dfs g; g_models := ms |}
+                 g_dfs := if writeback then some_tables ms else g_dfs g; g_models := ms;
+                 g_shthr := g_shthr g; g_shbk := g_shbk g |}
     end
+  | GSetThr d => Ok (group_with g (with_thr (g_set g) d) false (g_shbk g))
+  | GSetBk d => Ok (group_with g (with_bk (g_set g) d) (g_shthr g) false)
+  | GSetCenter c => Ok (group_with g (with_center (g_set g) c) (g_shthr g) (g_shbk g))
+  | GSetMethod a => Ok (group_with g (with_amp (g_set g) a) (g_shthr g) (g_shbk g))
+  | GSetFek f => Ok (group_with g (with_fek (g_set g) f) (g_shthr g) (g_shbk g))
+  | GSetRs b => Ok (group_with g (with_rs (g_set g) b) (g_shthr g) (g_shbk g))
   end.
 Definition gstep := gstep_gen true.
 Definition gstep_legacy := gstep_gen false.
@@ -256,13 +293,23 @@ Definition grun_legacy := grun_gen gstep_legacy.
    model's signal is the group's signal (and there are as many models as tables and signals) *)
 Definition mirror (g : group) : Prop :=
   map o_df (g_models g) = map Some (g_dfs g) /\ map o_sig (g_models g) = map Some (g_sigs g).
+(* the settings the user intends for the group after a history: item edits and attribute assignments applied *)
 Fixpoint gintended (s : settings) (ops : list gop) : settings :=
   match ops with
   | [] => s
   | GEditThr k v :: t => gintended (with_thr s (set (st_thr s) k v)) t
   | GEditBk k v :: t => gintended (with_bk s (set (st_bk s) k v)) t
+  | GSetThr d :: t => gintended (with_thr s d) t
+  | GSetBk d :: t => gintended (with_bk s d) t
+  | GSetCenter c :: t => gintended (with_center s c) t
+  | GSetMethod a :: t => gintended (with_amp s a) t
+  | GSetFek f :: t => gintended (with_fek s f) t
+  | GSetRs b :: t => gintended (with_rs s b) t
   | _ :: t => gintended s t
   end.
+(* operations that do not assign a settings attribute *)
+Definition no_assignment (p : gop) : bool :=
+  match p with GFit _ _ | GEditThr _ _ | GEditBk _ _ | GRecompute _ => true | _ => false end.
 
 (* ------------------------------------------------------------------------------------------ *)
 (* correspondence: observable state after a history *)
